@@ -3,7 +3,17 @@
 property text and a scratch worktree; nothing from /verif)."""
 import json, sys
 pid = sys.argv[1]
-wt = '/tmp/wt/' + pid
+rnd = int(sys.argv[2]) if len(sys.argv) > 2 else 1      # round 2: other mechanisms, ids -3/-4
+wt = '/tmp/wt/' + pid + ('' if rnd == 1 else '_r%d' % rnd)
+import os
+used = []
+if rnd > 1:
+    for k in range(1, 2 * rnd - 1):
+        mp = '/verif/seeded/%s-%d/meta.json' % (pid, k)
+        if os.path.exists(mp):
+            m = json.load(open(mp))
+            used.append('  - %s (files: %s)' % (m['summary'], ', '.join(m.get('files', []))))
+K1, K2 = 2 * rnd - 1, 2 * rnd
 for l in open('/verif/properties.jsonl'):
     p = json.loads(l)
     if p['id'] == pid:
@@ -25,14 +35,15 @@ YOUR TASK: produce TWO different, independent, realistic source changes ("seeded
   (c) the breakage needs something SPECIFIC to manifest - a particular interleaving, a crash/fault at a particular point, a multi-step sequence of operations, an unusual input (boundary value, particular type/width/alignment combination, rare code path), or two cooperating sites that each look fine alone. NOT something ordinary use or any existing test would expose at once.
   Each change should look like a plausible mistake or "optimisation"/refactoring a developer could make (off-by-one, wrong comparison, dropped special case, missing lock/flag/re-check, wrong mask, wrong size, reordered steps...). Keep each change small (a few lines). The two changes should use different mechanisms / touch different code paths.
 
-For each change k in (1, 2) deliver, in the directory {wt}/_seed/{pid}-k/ :
+{("ALREADY DONE by earlier rounds - do NOT repeat these mechanisms or anything close to them; pick different code paths, different API entry points, different kinds of input:" + chr(10) + chr(10).join(used) + chr(10)) if used else ""}
+For each change k in ({K1}, {K2}) deliver, in the directory {wt}/_seed/{pid}-k/ :
   - patch.diff : `git diff` of the change against the worktree HEAD (only that change; it must apply with `git apply` on a clean checkout of HEAD)
   - demo.py (or demo.sh) : a small self-contained demonstration program that exits 0 on the unchanged tree and exits non-zero (printing what went wrong) with the change applied. It must use the worktree's build (see below), need no network, and run in under 2 minutes.
   - meta.json : {{"property": "{pid}", "summary": "<one line: what the change does>", "needs": "<what specific condition is needed for it to manifest>", "files": [...], "tests_run": "<exact test command(s) you ran and their pass/fail counts with the change applied>"}}
 
 HOW TO BUILD AND TEST in the worktree (python is /venv/bin/python, version 3.12; there is no network):
   cd {wt}
-  /venv/bin/python setup.py -q build_ext --inplace        # rebuilds src/_cffi_backend*.so after any change under src/c/ (about 5 s); pure-Python changes under src/cffi need no rebuild
+  /venv/bin/python setup.py -q build_ext --inplace        # rebuilds src/_cffi_backend*.so after a change to src/c/_cffi_backend.c (about 5 s). IMPORTANT: setup.py does not track the other files under src/c/ (they are #included): after editing any of those add --force, otherwise you test a stale build. Pure-Python changes under src/cffi need no rebuild
   PYTHONPATH={wt}/src /venv/bin/python -c "import cffi, _cffi_backend; print(cffi.__file__, _cffi_backend.__file__)"   # must print paths inside {wt}
   # tests (ALWAYS with PYTHONPATH={wt}/src so the worktree's code is used, not the installed one):
   PYTHONPATH={wt}/src /venv/bin/python -m pytest -q -p no:cacheprovider --timeout=900 src/c/test_c.py testing/cffi0 testing/cffi1 testing/embedding
